@@ -188,6 +188,7 @@ class Exec:
                                for e in clog.events],
                     "versions": [(s, len(r)) for s, r in versions], "trace": sched.trace_names(),
                     "nflips": len(flips.flips),
+                    "sched_counters": dict(sched.counters),
                     "overlap": sum(1 for e in clog.events if e["actor"].startswith("R")
                                    and any(e["call"] < s <= (e["ret"] or 10**9) for s, _r in versions[1:]))}
 
@@ -409,6 +410,9 @@ class C02(Check):
         res.count("executions_ok")
         nreads = sum(1 for e in r["events"] if e["actor"].startswith("R"))
         res.count("reads_judged", nreads)
+        for cname in ("reader_faults", "weather_fired"):
+            if r.get("sched_counters", {}).get(cname):
+                res.count(cname, r["sched_counters"][cname])
         if r["overlap"]:
             res.count("reads_overlapping_a_flip", r["overlap"])
             res.key(r["trace_key"])
